@@ -441,10 +441,10 @@ structure MInv (Q : String → String → Prop) (P : List Cand) (st : MState) : 
   mods : ∀ p m, get st.modifying p = some m → ∃ n km, m = .user n ∧ (⟨n, true, p, km⟩ : Cand) ∈ P ∧ Q n p ∧
     ∃ node cur, get st.props p = some (node, cur) ∧ cur ≤ km
 
-theorem stepMod_ok {Q : String → String → Prop} {s : Spec} {st st' : MState} {pk : String × Nat}
+theorem stepModCore_ok {Q : String → String → Prop} {s : Spec} {st st' : MState} {pk : String × Nat}
     {P : List Cand} (hQ : ∀ p ∈ s.modifiable, Q s.name p) (hI : MInv Q P st)
-    (h : stepMod s st pk = .ok st') : MInv Q (P ++ [mkCand s.name true pk]) st' := by
-  unfold stepMod at h
+    (h : stepModCore s st pk = .ok st') : MInv Q (P ++ [mkCand s.name true pk]) st' := by
+  unfold stepModCore at h
   have hmods_put : ∀ (hlt : ∀ node cur, get st.props pk.1 = some (node, cur) → pk.2 < cur),
       ∀ p m, get st.modifying p = some m → ∃ n km, m = .user n ∧
         (⟨n, true, p, km⟩ : Cand) ∈ P ++ [mkCand s.name true pk] ∧ Q n p ∧
@@ -494,9 +494,22 @@ theorem stepMod_ok {Q : String → String → Prop} {s : Spec} {st st' : MState}
       intro n' c' h'; rw [hg] at h'; cases h'
     exact ⟨PInv_put hI.pinv s.name true pk.1 pk.2 hlt', hmods_put hlt'⟩
 
-theorem stepsMod_ok {Q : String → String → Prop} {s : Spec} (hQ : ∀ p ∈ s.modifiable, Q s.name p)
+/-- a successful step of the modifying pass went through the core and the property is not final -/
+theorem stepMod_ok_core {finals : List String} {s : Spec} {st st' : MState} {pk : String × Nat}
+    (h : stepMod finals s st pk = .ok st') : pk.1 ∉ finals ∧ stepModCore s st pk = .ok st' := by
+  unfold stepMod at h
+  split at h
+  · cases h
+  · rename_i hnf; exact ⟨hnf, h⟩
+
+theorem stepMod_ok {finals : List String} {Q : String → String → Prop} {s : Spec} {st st' : MState} {pk : String × Nat}
+    {P : List Cand} (hQ : ∀ p ∈ s.modifiable, Q s.name p) (hI : MInv Q P st)
+    (h : stepMod finals s st pk = .ok st') : MInv Q (P ++ [mkCand s.name true pk]) st' :=
+  stepModCore_ok hQ hI (stepMod_ok_core h).2
+
+theorem stepsMod_ok {finals : List String} {Q : String → String → Prop} {s : Spec} (hQ : ∀ p ∈ s.modifiable, Q s.name p)
     (prs : List (String × Nat)) :
-    ∀ {st st' : MState} {P : List Cand}, MInv Q P st → stepsMod s prs st = .ok st' →
+    ∀ {st st' : MState} {P : List Cand}, MInv Q P st → stepsMod finals s prs st = .ok st' →
     MInv Q (P ++ prs.map (mkCand s.name true)) st' := by
   induction prs with
   | nil => intro st st' P hI h; simp only [stepsMod] at h; cases h; simpa using hI
@@ -512,9 +525,9 @@ theorem stepsMod_ok {Q : String → String → Prop} {s : Spec} (hQ : ∀ p ∈ 
 theorem candsOf_mod {s : Spec} (h : s.modifying = true) : candsOf s = s.prios.map (mkCand s.name true) := by
   simp [candsOf, mkCand, h]
 
-theorem modPass_ok {Q : String → String → Prop} (L : List Spec) (hL : ∀ s ∈ L, s.modifying = true)
+theorem modPass_ok {finals : List String} {Q : String → String → Prop} (L : List Spec) (hL : ∀ s ∈ L, s.modifying = true)
     (hQ : ∀ s ∈ L, ∀ p ∈ s.modifiable, Q s.name p) :
-    ∀ {st st' : MState} {P : List Cand}, MInv Q P st → modPass L st = .ok st' →
+    ∀ {st st' : MState} {P : List Cand}, MInv Q P st → modPass finals L st = .ok st' →
     MInv Q (P ++ cands L) st' := by
   induction L with
   | nil => intro st st' P hI h; simp only [modPass] at h; cases h; simpa [cands] using hI
@@ -530,11 +543,12 @@ theorem modPass_ok {Q : String → String → Prop} (L : List Spec) (hL : ∀ s 
         (fun t ht => hQ t (List.mem_cons_of_mem _ ht)) h2 h
       simpa [cands, List.append_assoc] using this
 
-/-- the only error of the modifying pass -/
-theorem modPass_error (L : List Spec) : ∀ {st : MState} {e : Err}, modPass L st = .error e → e = .modifiedTwice := by
-  have hstep : ∀ {s : Spec} {st : MState} {pk : String × Nat} {e : Err}, stepMod s st pk = .error e → e = .modifiedTwice := by
+/-- the two errors of the modifying pass -/
+theorem modPass_error {finals : List String} (L : List Spec) : ∀ {st : MState} {e : Err},
+    modPass finals L st = .error e → e = .modifiedTwice ∨ e = .finalProp := by
+  have hcore : ∀ {s : Spec} {st : MState} {pk : String × Nat} {e : Err}, stepModCore s st pk = .error e → e = .modifiedTwice := by
     intro s st pk e h
-    unfold stepMod at h
+    unfold stepModCore at h
     split at h
     · split at h
       · cases h
@@ -544,8 +558,15 @@ theorem modPass_error (L : List Spec) : ∀ {st : MState} {e : Err}, modPass L s
           · cases h
         · cases h
     · cases h
+  have hstep : ∀ {s : Spec} {st : MState} {pk : String × Nat} {e : Err}, stepMod finals s st pk = .error e →
+      e = .modifiedTwice ∨ e = .finalProp := by
+    intro s st pk e h
+    unfold stepMod at h
+    split at h
+    · cases h; right; rfl
+    · left; exact hcore h
   have hsteps : ∀ {s : Spec} (prs : List (String × Nat)) {st : MState} {e : Err},
-      stepsMod s prs st = .error e → e = .modifiedTwice := by
+      stepsMod finals s prs st = .error e → e = .modifiedTwice ∨ e = .finalProp := by
     intro s prs
     induction prs with
     | nil => intro st e h; simp [stepsMod] at h
@@ -564,6 +585,89 @@ theorem modPass_error (L : List Spec) : ∀ {st : MState} {e : Err}, modPass L s
     · rename_i e' h1; cases h; exact hsteps _ h1
     · exact ih h
 
+theorem stepModCore_error {s : Spec} {st : MState} {pk : String × Nat} {e : Err}
+    (h : stepModCore s st pk = .error e) : e = .modifiedTwice := by
+  unfold stepModCore at h
+  split at h
+  · split at h
+    · cases h
+    · split at h
+      · split at h
+        · cases h; rfl
+        · cases h
+      · cases h
+  · cases h
+
+/-- the final-property error of the modifying pass means that a modifying specifier names a final property -/
+theorem modPass_finalProp_sound {finals : List String} (L : List Spec) : ∀ {st : MState},
+    modPass finals L st = .error .finalProp → ∃ s ∈ L, ∃ pk ∈ s.prios, pk.1 ∈ finals := by
+  have hsteps : ∀ {s : Spec} (prs : List (String × Nat)) {st : MState},
+      stepsMod finals s prs st = .error .finalProp → ∃ pk ∈ prs, pk.1 ∈ finals := by
+    intro s prs
+    induction prs with
+    | nil => intro st h; simp [stepsMod] at h
+    | cons pk rest ih =>
+      intro st h
+      simp only [stepsMod] at h
+      split at h
+      · rename_i e' h1
+        cases h
+        unfold stepMod at h1
+        split at h1
+        · rename_i hf; exact ⟨pk, by simp, hf⟩
+        · have := stepModCore_error h1; cases this
+      · obtain ⟨qk, hq, hf⟩ := ih h
+        exact ⟨qk, List.mem_cons_of_mem _ hq, hf⟩
+  induction L with
+  | nil => intro st h; simp [modPass] at h
+  | cons s rest ih =>
+    intro st h
+    simp only [modPass] at h
+    split at h
+    · rename_i e' h1
+      cases h
+      obtain ⟨pk, hpk, hf⟩ := hsteps _ h1
+      exact ⟨s, by simp, pk, hpk, hf⟩
+    · obtain ⟨t, ht, r⟩ := ih h
+      exact ⟨t, List.mem_cons_of_mem _ ht, r⟩
+
+/-- a modifying pass that succeeds met no final property (the check added by commit 5766576b) -/
+theorem modPass_ok_nofinal {finals : List String} (L : List Spec) : ∀ {st st' : MState},
+    modPass finals L st = .ok st' → ∀ s ∈ L, ∀ pk ∈ s.prios, pk.1 ∉ finals := by
+  have hsteps : ∀ {s : Spec} (prs : List (String × Nat)) {st st' : MState},
+      stepsMod finals s prs st = .ok st' → ∀ pk ∈ prs, pk.1 ∉ finals := by
+    intro s prs
+    induction prs with
+    | nil => intro st st' _ pk hpk; cases hpk
+    | cons pk rest ih =>
+      intro st st' h qk hqk
+      simp only [stepsMod] at h
+      split at h
+      · cases h
+      · rename_i st1 h1
+        rcases List.mem_cons.mp hqk with rfl | hr
+        · exact (stepMod_ok_core h1).1
+        · exact ih h qk hr
+  induction L with
+  | nil => intro st st' _ s hs; cases hs
+  | cons s rest ih =>
+    intro st st' h t ht
+    simp only [modPass] at h
+    split at h
+    · cases h
+    · rename_i st1 h1
+      rcases List.mem_cons.mp ht with rfl | hr
+      · exact hsteps _ h1
+      · exact ih h t hr
+
+/-- a final property among the candidates of the modifying pass makes it fail -/
+theorem modPass_final_error {finals : List String} (L : List Spec) {st : MState} (s : Spec) (hs : s ∈ L)
+    (pk : String × Nat) (hpk : pk ∈ s.prios) (hf : pk.1 ∈ finals) :
+    ∃ e, modPass finals L st = .error e ∧ (e = .modifiedTwice ∨ e = .finalProp) := by
+  cases h : modPass finals L st with
+  | error e => exact ⟨e, rfl, modPass_error L h⟩
+  | ok st' => exact absurd hf (modPass_ok_nofinal L h s hs pk hpk)
+
 /-! ### the modifying pass reads `properties` only through look-ups -/
 
 def MEq (a b : MState) : Prop := (∀ p, get a.props p = get b.props p) ∧ a.modifying = b.modifying
@@ -573,10 +677,10 @@ def ERel {α} (R : α → α → Prop) : Except Err α → Except Err α → Pro
   | .error e1, .error e2 => e1 = e2
   | _, _ => False
 
-theorem stepMod_ext (s : Spec) {a b : MState} (pk : String × Nat) (h : MEq a b) :
-    ERel MEq (stepMod s a pk) (stepMod s b pk) := by
+theorem stepModCore_ext (s : Spec) {a b : MState} (pk : String × Nat) (h : MEq a b) :
+    ERel MEq (stepModCore s a pk) (stepModCore s b pk) := by
   obtain ⟨hp, hm⟩ := h
-  unfold stepMod
+  unfold stepModCore
   rw [← hp pk.1, ← hm]
   have hput : ∀ v, MEq ⟨put a.props pk.1 v, a.modifying⟩ ⟨put b.props pk.1 v, a.modifying⟩ := by
     intro v; refine ⟨fun p => ?_, rfl⟩
@@ -594,26 +698,34 @@ theorem stepMod_ext (s : Spec) {a b : MState} (pk : String × Nat) (h : MEq a b)
         | none => simp only [ERel]; exact ⟨hp, rfl⟩
       · simp only [ERel]; exact ⟨hp, hm⟩
 
-theorem stepsMod_ext (s : Spec) (prs : List (String × Nat)) : ∀ {a b : MState}, MEq a b →
-    ERel MEq (stepsMod s prs a) (stepsMod s prs b) := by
+theorem stepMod_ext (finals : List String) (s : Spec) {a b : MState} (pk : String × Nat) (h : MEq a b) :
+    ERel MEq (stepMod finals s a pk) (stepMod finals s b pk) := by
+  unfold stepMod
+  split
+  · simp [ERel]
+  · exact stepModCore_ext s pk h
+
+theorem stepsMod_ext (finals : List String) (s : Spec) (prs : List (String × Nat)) : ∀ {a b : MState}, MEq a b →
+    ERel MEq (stepsMod finals s prs a) (stepsMod finals s prs b) := by
   induction prs with
   | nil => intro a b h; simpa [stepsMod, ERel] using h
   | cons pk rest ih =>
     intro a b h
-    have h1 := stepMod_ext s pk h
+    have h1 := stepMod_ext finals s pk h
     simp only [stepsMod]
-    cases ha : stepMod s a pk <;> cases hb : stepMod s b pk <;> rw [ha, hb] at h1 <;> simp only [ERel] at h1
+    cases ha : stepMod finals s a pk <;> cases hb : stepMod finals s b pk <;> rw [ha, hb] at h1 <;> simp only [ERel] at h1
     · subst h1; simp [ERel]
     · exact ih h1
 
-theorem modPass_ext (L : List Spec) : ∀ {a b : MState}, MEq a b → ERel MEq (modPass L a) (modPass L b) := by
+theorem modPass_ext (finals : List String) (L : List Spec) : ∀ {a b : MState}, MEq a b →
+    ERel MEq (modPass finals L a) (modPass finals L b) := by
   induction L with
   | nil => intro a b h; simpa [modPass, ERel] using h
   | cons s rest ih =>
     intro a b h
-    have h1 := stepsMod_ext s s.prios h
+    have h1 := stepsMod_ext finals s s.prios h
     simp only [modPass]
-    cases ha : stepsMod s s.prios a <;> cases hb : stepsMod s s.prios b <;> rw [ha, hb] at h1 <;> simp only [ERel] at h1
+    cases ha : stepsMod finals s s.prios a <;> cases hb : stepsMod finals s s.prios b <;> rw [ha, hb] at h1 <;> simp only [ERel] at h1
     · subst h1; simp [ERel]
     · exact ih h1
 
